@@ -217,11 +217,45 @@ func NewWorld(sc *Scenario, s *Sim, h *History) *World {
 		}
 	}
 	// hooks
-	server.SimHook = s.Hook
-	server.SimNoteHook = w.note
-	server.SimDial = w.Net.Dialer("proxy", "10.0.0.1")
 	w.probeTr = &http.Transport{DialContext: w.Net.Dialer("probe", "10.0.0.1"), MaxIdleConns: 100, IdleConnTimeout: 90 * time.Second}
-	http.DefaultClient.Transport = w.probeTr
+	if s.RealScale > 0 {
+		// Real-time race mode: goroutines of the previous run may still be
+		// winding down, so the package-level hooks are written once per process
+		// and dispatch to the current world through an atomic pointer; SimHook
+		// stays nil (yield points are no-ops).
+		currentWorld.Store(w)
+		raceHooksOnce.Do(func() {
+			server.SimNoteHook = func(point string, obj any) {
+				if hc, ok := obj.(*server.HealthCheck); ok {
+					cw := currentWorld.Load()
+					cw.mu.Lock()
+					cw.hcs = append(cw.hcs, hc)
+					cw.mu.Unlock()
+				}
+			}
+			server.SimDial = func(ctx context.Context, network, addr string) (net.Conn, error) {
+				return currentWorld.Load().Net.Dial(ctx, "proxy", "10.0.0.1", addr)
+			}
+			http.DefaultClient.Transport = roundTripFunc(func(r *http.Request) (*http.Response, error) {
+				return currentWorld.Load().probeTr.RoundTrip(r)
+			})
+		})
+	} else {
+		server.SimHook = s.Hook
+		server.SimNoteHook = w.note
+		if s.Free {
+			// race mode: keep only what teardown needs (the list of health checks)
+			server.SimNoteHook = func(point string, obj any) {
+				if hc, ok := obj.(*server.HealthCheck); ok {
+					w.mu.Lock()
+					w.hcs = append(w.hcs, hc)
+					w.mu.Unlock()
+				}
+			}
+		}
+		server.SimDial = w.Net.Dialer("proxy", "10.0.0.1")
+		http.DefaultClient.Transport = w.probeTr
+	}
 	slog.SetDefault(slog.New(&captureHandler{w: w}))
 	// A closed health check whose ticker had a tick buffered may or may not run
 	// one more (no-op) check: Go's select picks at random between the two ready
@@ -403,6 +437,9 @@ func (w *World) copyState(seq int, point, rname string) {
 }
 
 func (w *World) noteTargetRequest(addr, rid, rawHead string, body []byte) {
+	if w.S.Free {
+		return
+	}
 	w.mu.Lock()
 	w.Seen[addr] = append(w.Seen[addr], TargetSeen{ReqID: rid, RawHead: rawHead, Body: append([]byte(nil), body...), Seq: w.H.Len()})
 	w.mu.Unlock()
@@ -507,6 +544,9 @@ func dflt(d, def time.Duration) time.Duration {
 	return d
 }
 
+// dur = default, then scaled for real-time mode
+func (w *World) dur(d, def time.Duration) time.Duration { return w.S.D(dflt(d, def)) }
+
 func (w *World) svcOptions(op *Op) server.ServiceOptions {
 	o := server.ServiceOptions{Hosts: append([]string(nil), op.Hosts...), PathPrefixes: append([]string(nil), op.Paths...), TLSRedirect: true}
 	if s := op.Svc; s != nil {
@@ -539,19 +579,19 @@ func (w *World) svcOptions(op *Op) server.ServiceOptions {
 func (w *World) tgtOptions(op *Op) server.TargetOptions {
 	hc := w.Sc.HC
 	o := server.TargetOptions{
-		HealthCheckConfig: server.HealthCheckConfig{Path: hc.Path, Interval: hc.Interval, Timeout: hc.Timeout},
-		ResponseTimeout:   server.DefaultTargetTimeout,
+		HealthCheckConfig: server.HealthCheckConfig{Path: hc.Path, Interval: w.S.D(hc.Interval), Timeout: w.S.D(hc.Timeout)},
+		ResponseTimeout:   w.S.D(server.DefaultTargetTimeout),
 		MaxMemoryBufferSize: server.DefaultMaxMemoryBufferSize,
 	}
 	if o.HealthCheckConfig.Path == "" {
 		o.HealthCheckConfig.Path = "/up"
 	}
 	if hc.TargetTimeout != 0 {
-		o.ResponseTimeout = hc.TargetTimeout
+		o.ResponseTimeout = w.S.D(hc.TargetTimeout)
 	}
 	if t := op.Tgt; t != nil {
 		if t.ResponseTimeout != 0 {
-			o.ResponseTimeout = t.ResponseTimeout
+			o.ResponseTimeout = w.S.D(t.ResponseTimeout)
 		}
 		o.BufferRequests, o.BufferResponses = t.BufferRequests, t.BufferResponses
 		if t.MaxMem > 0 {
@@ -564,10 +604,10 @@ func (w *World) tgtOptions(op *Op) server.TargetOptions {
 		o.LogRequestHeaders = append([]string(nil), t.LogReqHeaders...)
 		o.LogResponseHeaders = append([]string(nil), t.LogRespHeaders...)
 		if t.HCInterval != 0 {
-			o.HealthCheckConfig.Interval = t.HCInterval
+			o.HealthCheckConfig.Interval = w.S.D(t.HCInterval)
 		}
 		if t.HCTimeout != 0 {
-			o.HealthCheckConfig.Timeout = t.HCTimeout
+			o.HealthCheckConfig.Timeout = w.S.D(t.HCTimeout)
 		}
 		if t.HCPath != "" {
 			o.HealthCheckConfig.Path = t.HCPath
@@ -593,17 +633,17 @@ func (w *World) doCommand(actor string, idx int, op *Op) {
 		}()
 		switch op.Kind {
 		case "deploy":
-			res.Err = r.DeployService(op.Service, op.Targets, w.svcOptions(op), w.tgtOptions(op), dflt(op.DeployTimeout, 30*time.Second), dflt(op.DrainTimeout, 30*time.Second))
+			res.Err = r.DeployService(op.Service, op.Targets, w.svcOptions(op), w.tgtOptions(op), w.dur(op.DeployTimeout, 30*time.Second), w.dur(op.DrainTimeout, 30*time.Second))
 		case "rollout_deploy":
-			res.Err = r.SetRolloutTargets(op.Service, op.Targets, dflt(op.DeployTimeout, 30*time.Second), dflt(op.DrainTimeout, 30*time.Second))
+			res.Err = r.SetRolloutTargets(op.Service, op.Targets, w.dur(op.DeployTimeout, 30*time.Second), w.dur(op.DrainTimeout, 30*time.Second))
 		case "rollout_set":
 			res.Err = r.SetRolloutSplit(op.Service, op.Percent, op.Allow)
 		case "rollout_stop":
 			res.Err = r.StopRollout(op.Service)
 		case "pause":
-			res.Err = r.PauseService(op.Service, dflt(op.DrainTimeout, 30*time.Second), dflt(op.PauseTimeout, 30*time.Second))
+			res.Err = r.PauseService(op.Service, w.dur(op.DrainTimeout, 30*time.Second), w.dur(op.PauseTimeout, 30*time.Second))
 		case "stop":
-			res.Err = r.StopService(op.Service, dflt(op.DrainTimeout, 30*time.Second), op.Message)
+			res.Err = r.StopService(op.Service, w.dur(op.DrainTimeout, 30*time.Second), op.Message)
 		case "resume":
 			res.Err = r.ResumeService(op.Service)
 		case "remove":
@@ -652,6 +692,7 @@ type recorder struct {
 	body     bytes.Buffer
 	hijacked bool
 	abort    time.Duration
+	clientDone chan struct{}
 }
 
 func (r *recorder) Header() http.Header { return r.hdr }
@@ -694,7 +735,9 @@ func (r *recorder) Hijack() (net.Conn, *bufio.ReadWriter, error) {
 	w := r.w
 	abort := r.abort
 	w.H.Add(Event{Kind: "req.hijack", Req: rid})
+	r.clientDone = make(chan struct{})
 	go func() { // the client end of the upgraded connection
+		defer close(r.clientDone)
 		var t <-chan time.Time
 		if abort > 0 {
 			tm := w.S.NewTimer(abort)
@@ -820,6 +863,9 @@ func (w *World) doRequestID(actor string, idx int, op *Op, rid string) *Response
 		}()
 		ri.Handler.ServeHTTP(rec, req)
 	}()
+	if rec.hijacked {
+		<-rec.clientDone // the client end has seen the close; its observations are complete
+	}
 	if !rec.hijacked {
 		if !rec.wrote {
 			rec.WriteHeader(200)
@@ -1132,3 +1178,12 @@ func sortStateFile(b []byte) []byte {
 	}
 	return out
 }
+
+var (
+	currentWorld  atomic.Pointer[World]
+	raceHooksOnce sync.Once
+)
+
+type roundTripFunc func(*http.Request) (*http.Response, error)
+
+func (f roundTripFunc) RoundTrip(r *http.Request) (*http.Response, error) { return f(r) }
